@@ -56,6 +56,10 @@ def work(ctx, tier):
     n = (20000 if tier == "quick" else 300000) // ctx.nshards
     for k in range(n):
         sc = gen.rand_scenario(rng, p_special=0.02, p_budget=0.3, p_handler=0.6, p_abort=0.15, p_before_sleep=0.6, ncalls=(1, 2), placements=True, slow_hooks=(k % 2 == 0), exotic_callables=True)
+        if k % 5 == 1 and sc["place"]["before_sleep"] != "none":
+            # a before_sleep hook that fails on one particular retry (or always): the backoff it announces still has to happen
+            sc["fault"] = {"kind": "hook", "hook": "before_sleep", "at": rng.choice([0, 1, 2, "always"]), "exc": rng.choice(["RuntimeError", "ValueError", "KeyError"])}
+            ctx.inc("scenarios_with_raising_before_sleep")
         for e in common.pick_entries(rng, rig.ENTRIES, 3):
             _one(ctx, sc, e, stats)
         ctx.inc("random_scenarios")
@@ -68,6 +72,7 @@ def conclude(ctx):
         "decision:sleep": (ctx.cnt["decision:sleep"], 1000),
         "decision:defer": (ctx.cnt["decision:defer"], 300),
         "decision:abort": (ctx.cnt["decision:abort"], 300),
+        "scenarios_with_raising_before_sleep": (ctx.cnt["scenarios_with_raising_before_sleep"], 300),
     }
     cells = [k for k in ctx.cnt if k.startswith("placement:")]
     floors["placement cells (of 64)"] = (len(cells), 60)
@@ -77,7 +82,7 @@ def conclude(ctx):
         rule=(
             "bounded-exhaustive: every handler decision sequence sleep^k.(sleep|defer|abort), k < L, x the full 4x4x4 placement matrix {none, policy, call, both} for handler / before_sleep / sleeper "
             "(entries rotated; decorator entries only have construction-time placement) + random scenarios with budgets, aborts, deadlines, slow handlers/hooks (virtual time passes between the delay being computed and the sleeper being called) and awaitable hooks/sleepers of every shape "
-            "(async def, lambda returning a coroutine, object with async __call__); "
+            "(async def, lambda returning a coroutine, object with async __call__), a fifth of them with a before_sleep hook that raises on one retry or always; "
             "non-trivial = run with at least one granted retry whose protocol was checked; distinct = distinct (placement, hook kinds, decision lists, scripts, entry)"
         ),
         evaluations=ctx.cnt["calls"],
